@@ -676,11 +676,17 @@ def make_calls() -> list[CallSpec]:
 
     def par(v, u):
         return [(u, 1, 1, lambda: sc.scalar(v, unit=u))]
+
+    def width(u='angstrom'):
+        # the width of a peak: an ordinary value, the documented lower bound 0 (param_bounds: scale in (0, inf)) and a
+        # value below any internal clamp - boundary values are where an implementation is tempted to "repair" its input
+        return [(u, 1, 1, lambda: sc.scalar(0.3, unit=u)), (f'{u} (lower bound 0)', 2, 1, lambda: sc.scalar(0.0, unit=u)),
+                (f'{u} (1e-16)', 3, 1, lambda: sc.scalar(1e-16, unit=u))]
     for cls, nm in ((pm.GaussianModel, 'Gaussian'), (pm.LorentzianModel, 'Lorentzian')):
         C.append(CallSpec(f'peaks.{nm}Model.__call__',
                           lambda x, amplitude, loc, scale, c=cls: c()(x, amplitude=amplitude, loc=loc, scale=scale),
                           {'x': xs_slot[:2] + xs_slot[2:3], 'amplitude': par(3.0, 'counts*angstrom'),
-                           'loc': par(4.0, 'angstrom'), 'scale': par(0.3, 'angstrom')}))
+                           'loc': par(4.0, 'angstrom'), 'scale': width()}))
         C.append(CallSpec(f'peaks.{nm}Model.guess', lambda data, c=cls: c().guess(data), {'data': spec_slot}))
         C.append(CallSpec(f'peaks.{nm}Model.fwhm', lambda scale, c=cls: c().fwhm({'scale': scale, 'loc': scale, 'amplitude': scale}),
                           {'scale': par(0.3, 'angstrom')}))
@@ -688,7 +694,7 @@ def make_calls() -> list[CallSpec]:
                       lambda x, amplitude, loc, scale, fraction: pm.PseudoVoigtModel()(
                           x, amplitude=amplitude, loc=loc, scale=scale, fraction=fraction),
                       {'x': xs_slot[:2], 'amplitude': par(3.0, 'counts*angstrom'), 'loc': par(4.0, 'angstrom'),
-                       'scale': par(0.3, 'angstrom'), 'fraction': par(0.4, 'dimensionless')}))
+                       'scale': width(), 'fraction': par(0.4, 'dimensionless')}))
     C.append(CallSpec('peaks.PseudoVoigtModel.guess', lambda data: pm.PseudoVoigtModel().guess(data), {'data': spec_slot}))
     C.append(CallSpec('peaks.PolynomialModel.__call__',
                       lambda x, a0, a1, a2: pm.PolynomialModel(degree=2)(x, a0=a0, a1=a1, a2=a2),
@@ -699,7 +705,7 @@ def make_calls() -> list[CallSpec]:
                       lambda x, amplitude, loc, scale, a0, a1: (pm.GaussianModel() + pm.PolynomialModel(degree=1))(
                           x, amplitude=amplitude, loc=loc, scale=scale, a0=a0, a1=a1),
                       {'x': xs_slot[:1], 'amplitude': par(3.0, 'counts*angstrom'), 'loc': par(4.0, 'angstrom'),
-                       'scale': par(0.3, 'angstrom'), 'a0': par(1.0, 'counts'), 'a1': par(0.5, 'counts/angstrom')}))
+                       'scale': width(), 'a0': par(1.0, 'counts'), 'a1': par(0.5, 'counts/angstrom')}))
     est = [(u, i + 1, 1, lambda u=u: sc.array(dims=['x'], values=[4.0], unit='angstrom').to(unit=u)) for i, u in enumerate(('angstrom', 'nm'))]
     win = [(u, i + 1, 1, lambda u=u: sc.scalar(3.0, unit='angstrom').to(unit=u)) for i, u in enumerate(('angstrom', 'nm'))]
     C.append(CallSpec('peaks.fit_peaks', lambda data, peak_estimates, windows: fit_peaks(
